@@ -291,7 +291,6 @@ def run(prog: Program, L: Ledger) -> None:
 
     L.rule("UL", "lemma used by U1: reinsert_atoms(atoms, removed, indices) inverts `del atoms[indices]` (scatter/gather shape rules of C19/R1)")
     c19.check_reinsert(prog, L, "UL")
-    _snapshot_freshness(prog, L)
     scs = scenarios(prog, with_composites=True, iterations=1)
     if L.tier == "thorough":
         scs += [s for s in scenarios(prog, with_composites=False, iterations=2)]
@@ -315,3 +314,6 @@ def run(prog: Program, L: Ledger) -> None:
     L.extra["abstract_paths"] = tot_paths
     L.extra["trials_checked"] = tot_trials
     L.floor("abstract trials checked", tot_trials, 500)
+    # last: its instance floor must not pre-empt a violation the machine has already established (a revert_state that no
+    # longer restores a component is U1's finding, not an analysis error of U6)
+    _snapshot_freshness(prog, L)
